@@ -230,11 +230,29 @@ type Decimal decimal.Decimal
 // ParseDecimal parses a string representing a decimal, and
 // returns an error if the input is invalid.
 func ParseDecimal(value string) (Decimal, error) {
-	d, err := decimal.NewFromString(value)
+	d, err := parseDecimal(value)
 	if err != nil {
 		return Decimal(decimal.Zero), err
 	}
 	return Decimal(d), nil
+}
+
+// maxDecimalExponent bounds the power of ten that a decimal read from text may
+// carry. Arithmetic aligns two decimals by multiplying with the power of ten
+// between their exponents, so a short text like "1e1000000000" would otherwise
+// ask for a computation that does not end.
+const maxDecimalExponent = 100000
+
+// parseDecimal reads a decimal from its text, in plain or exponent notation.
+func parseDecimal(value string) (decimal.Decimal, error) {
+	d, err := decimal.NewFromString(value)
+	if err != nil {
+		return decimal.Zero, err
+	}
+	if exp := d.Exponent(); exp > maxDecimalExponent || exp < -maxDecimalExponent {
+		return decimal.Zero, fmt.Errorf("can't convert %v to decimal: exponent out of range", value)
+	}
+	return d, nil
 }
 
 // MustParseDecimal converts a string into a Decimal type.
